@@ -485,7 +485,7 @@ mod n {
     use std::path::{Path, PathBuf};
 
     fn tests_root() -> PathBuf {
-        Path::new(env!("CARGO_MANIFEST_DIR")).join("../hulc_tests/tests")
+        crate_dir(env!("CARGO_MANIFEST_DIR")).join("../hulc_tests/tests")
     }
 
     fn files_with_ext(dir: &Path, ext: &str, out: &mut Vec<PathBuf>) {
@@ -1068,6 +1068,79 @@ mod n {
         });
     }
 
+    // names are case-sensitive: a project in which every second wall uses a construction whose name differs from its
+    // neighbours' only in letter case (HULC repeats the CONSTRUCTION block after each wall; the copy is renamed with it) is
+    // a valid project with one more construction - converted models stay closed, ids unique per collection
+    #[test]
+    fn n_c02_case_twins() {
+        let projects: Vec<(String, String)> = project_files().iter().map(|f| (f.file_name().unwrap().to_string_lossy().to_string(), std::fs::read_to_string(f).unwrap())).collect();
+        drive("C02.case_twins", "the 12 shipped projects with every second use of the most used wall construction (and of the most used window construction) written in upper case, together with the copy of its definition that follows the element: two constructions whose names differ only in case, used alternately", |c| {
+            let k = c.pick(projects.len());
+            let (fname, text) = &projects[k];
+            let sites = reference_sites(text);
+            let mut edited = text.clone();
+            let mut renamed = 0usize;
+            for key in ["CONSTRUCTION", "GAP"] {
+                let wall_sites: Vec<&(usize, String, String, String)> = sites.iter().filter(|r| r.3 == key && r.2 != "CONSTRUCTION" && r.1.to_uppercase() != r.1).collect();
+                let mut count: std::collections::BTreeMap<&str, usize> = Default::default();
+                for r in &wall_sites {
+                    *count.entry(r.1.as_str()).or_default() += 1;
+                }
+                let Some((name, _)) = count.iter().filter(|(n, k)| **k >= 3 && !text.contains(&format!("\"{}\"", n.to_uppercase()))).max_by_key(|(_, k)| **k) else { continue };
+                let upper = name.to_uppercase();
+                // every second use, from the last to the first so that offsets stay valid; the definition copy that follows
+                // the element within the next 12 lines is renamed too
+                let uses: Vec<usize> = wall_sites.iter().filter(|r| r.1 == *name).map(|r| r.0).collect();
+                for (i, at) in uses.iter().enumerate().rev() {
+                    if i % 2 == 1 {
+                        let tail_end = edited[*at..].split_inclusive('\n').take(12).map(|l| l.len()).sum::<usize>() + *at;
+                        let def = format!("\"{}\" =", name);
+                        if let Some(d) = edited[*at + name.len()..tail_end.min(edited.len())].find(&def) {
+                            let dpos = *at + name.len() + d + 1;
+                            edited.replace_range(dpos..dpos + name.len(), &upper);
+                        } else if key == "CONSTRUCTION" {
+                            continue; // no definition copy follows this use: leave it alone
+                        }
+                        edited.replace_range(*at..*at + name.len(), &upper);
+                        renamed += 1;
+                    }
+                }
+                if key == "GAP" && renamed > 0 {
+                    // window constructions are defined once, in the library part: add the upper-case twin next to the original
+                    if let Some(d) = definitions(text).iter().find(|d| d.1 == *name && d.2 == "GAP") {
+                        let start = text[..d.0].rfind('\n').map(|i| i + 1).unwrap_or(0);
+                        let mut end = start;
+                        for line in text[start..].split_inclusive('\n') {
+                            end += line.len();
+                            if line.trim_end().ends_with("..") {
+                                break;
+                            }
+                        }
+                        let twin = text[start..end].replace(&format!("\"{}\"", name), &format!("\"{}\"", upper));
+                        edited.insert_str(start, &twin);
+                    }
+                }
+            }
+            c.note(format!("{}: {} uses renamed to upper case", fname, renamed));
+            if renamed == 0 {
+                return;
+            }
+            match convert_text(edited) {
+                Outcome::Model(m) => {
+                    judge_model(c, &format!("{} with case twins", fname), &m);
+                    c.nontrivial(fname.clone());
+                    c.sample(|| format!("{}: {} uses in upper case: {} wall constructions, {} window constructions, closed", fname, renamed, m.cons.wallcons.len(), m.cons.wincons.len()));
+                }
+                Outcome::Rejected(e) => c.check("C02.case_twins.converts", false, || format!("{} with case twins is rejected: {}", fname, e.chars().take(200).collect::<String>())),
+                Outcome::Crashed(msg) => c.check("C02.rejects_with_error", false, || format!("{} with case twins: conversion panicked: {}", fname, msg.chars().take(200).collect::<String>())),
+                Outcome::Hung => {
+                    c.check("C02.rejects_with_error", false, || format!("{} with case twins: no answer in 60 s", fname));
+                    c.stop();
+                }
+            }
+        });
+    }
+
     // every project obtained from a shipped one by writing another value for one number: still closed, or an error
     #[test]
     fn n_c02_value_edits() {
@@ -1524,7 +1597,7 @@ mod n {
             let (proj, model) = c.of(&REFERENCE_PAIRS);
             c.note(format!("{} -> {}", proj, model));
             let text = std::fs::read_to_string(tests_root().join(proj)).expect("project file");
-            let want_text = std::fs::read_to_string(Path::new(env!("CARGO_MANIFEST_DIR")).join("tests/data").join(model)).expect("reference model");
+            let want_text = std::fs::read_to_string(crate_dir(env!("CARGO_MANIFEST_DIR")).join("tests/data").join(model)).expect("reference model");
             let got = match convert_to_json(&text) {
                 Ok(j) => j,
                 Err(e) => {
@@ -1566,7 +1639,7 @@ mod n {
     const CHILD_IND_ENV: &str = "VERIF_C05_CHILD_IND";
 
     fn shipped_models() -> Vec<(String, Model)> {
-        let dir = Path::new(env!("CARGO_MANIFEST_DIR")).join("tests/data");
+        let dir = crate_dir(env!("CARGO_MANIFEST_DIR")).join("tests/data");
         let mut files = vec![];
         files_with_ext(&dir, "json", &mut files);
         files
@@ -1587,7 +1660,7 @@ mod n {
             std::fs::write(parts[2], val.to_string()).unwrap();
             return;
         }
-        let dir = Path::new(env!("CARGO_MANIFEST_DIR")).join("tests/data");
+        let dir = crate_dir(env!("CARGO_MANIFEST_DIR")).join("tests/data");
         let mut files = vec![];
         files_with_ext(&dir, "json", &mut files);
         let models: Vec<(String, Model)> = files
